@@ -1,5 +1,4 @@
 PROP = dict(
-    unclaimed=True,
     module="M3d.Props.C05",
     corr=dict(quick=150, thorough=1200),
     gen=[],
@@ -26,7 +25,7 @@ PROP = dict(
         "wrapped Solid/SDF/Collider/Metaball are arbitrary functions (parameters of the model); their own correctness is C03/C06/C07",
         "the 2-D instance of templates/transform.template is run through the 3-D model on the plane z=0 (same template text; `go run codegen.go -check`); only Matrix2 has its own model",
         "Rotation(axis, theta) / NewMatrix3Rotation use sin/cos: covered as `ortho m` under the hypothesis m^T m = 1, which is not proved for the sin/cos matrices",
-        "SmartSqueeze.Transform's breakpoint loop and the meshing inside MarchingCubesConj are not modelled (only the solid that is meshed and the map back)",
+        "SmartSqueeze.Transform's breakpoint loop and the meshing inside MarchingCubesConj are not modelled in Lean (only the solid that is meshed and the map back); they are checked by Go-side predicates prop:c05/smart_squeeze_piecewise_linear and prop:c05/marching_cubes_conj on every run",
     ],
     assumptions=[
         "scale factors non-zero, determinants non-zero, squeeze Min<=Max and Ratio>0 (the library's own Inverse divides by them)",
